@@ -881,6 +881,27 @@ class Evaluator(object):
                 self.tail_sps = set(self.tail_sps) | {node.get('sp')}
             sc = self.eval(node['scrut'], env, guards, fn, chain)
             scs = show(sc)
+            kv = None
+            if sc is not None:
+                import canon as _c
+                if sc[0] == 'path' and _c.is_variant_path(sc):
+                    kv = sc[1].split('::')[-1]
+                elif sc[0] == 'call' and sc[1] in ('Ok', 'Err', 'Some'):
+                    kv = sc[1]
+                elif sc[0] == 'path' and sc[1] == 'None':
+                    kv = 'None'
+                elif sc[0] == 'call' and _c.is_variant_path(('path', sc[1])) and not sc[1].startswith(('std::', 'core::')):
+                    kv = sc[1].split('::')[-1]
+            if kv is not None and all(a.get('guard') is None for a in node['arms']):
+                # the scrutinee is a known variant (a helper applied to a constant argument, read through): only the first arm that takes it runs
+                mty0 = node['scrut'].get('ty')
+                ws = [_c.whole(a['pat'], mty0) for a in node['arms']]
+                if all(w is not None for w in ws):
+                    for a, w in zip(node['arms'], ws):
+                        if w == 'ALL' or kv in w:
+                            aenv = dict(env)
+                            self.bind_pat(a['pat'], sc, aenv)
+                            return self.eval(a['body'], aenv, guards, fn, chain)
             self.emit('match', sc, node, guards, fn, chain)
             parts = []
             live_vals = []
@@ -987,6 +1008,8 @@ class Evaluator(object):
             elif names_all is not None:
                 names_all |= set(nm)
         sc = self.eval(node['scrut'], env, guards, fn, chain)
+        if names_all and sc is not None and sc[0] == 'path' and canon.is_variant_path(sc):
+            return ('lit', 'true' if ((sc[1].split('::')[-1] in names_all) == pol) else 'false')
         if names_all and canon.variants_of(ty) is not None:
             pred = canon.render(ty, names_all)
         else:
